@@ -320,12 +320,25 @@ def labels(constructions, rep):
 # =============================================================================== C11.MUL
 
 
+def is_label_src(v):
+    import re
+    return bool(re.fullmatch(r"\w+\.(kcals|fat|protein)_units", norm_src(v)))
+
+
 def mul(food, rep):
     rule = "C11.MUL"
     fn = food.get("__mul__")
     if fn is None:
         raise AnalysisError("Food.__mul__ missing")
     n_blocks = 0
+    from .core import Inliner
+    inl = Inliner(fn)
+    oth = fn.args.args[1].arg
+    THIS, OTHER = "self.is_a_ratio()", f"{oth}.is_a_ratio()"
+
+    def ctest(t):
+        """test/assert text with the local ratio flags replaced by the calls that define them"""
+        return inl.src(t)
 
     def visit(block, other_is_food, path):
         nonlocal n_blocks
@@ -333,19 +346,19 @@ def mul(food, rep):
         asserted = set()
         for st in block:
             if isinstance(st, ast.Assert):
-                t = norm_src(st.test)
+                t = ctest(st.test)
                 asserted.add(t)
             if isinstance(st, ast.If):
-                t = norm_src(st.test)
-                sub_food = other_is_food or t == "isinstance(other, Food)"
-                if t in ("this_is_the_ratio", "other_is_the_ratio"):
+                t = ctest(st.test)
+                sub_food = other_is_food or t == f"isinstance({oth}, Food)"
+                if t in (THIS, OTHER):
                     for s in st.body:
-                        if isinstance(s, ast.Assign) and isinstance(s.targets[0], ast.Name) and s.targets[0].id in LABELS:
+                        if isinstance(s, ast.Assign) and isinstance(s.targets[0], ast.Name) and is_label_src(s.value):
                             chosen.setdefault(s.targets[0].id, set()).add((t, norm_src(s.value)))
                     continue
                 visit(st.body, sub_food, path + [t])
-                visit(st.orelse, other_is_food and t != "isinstance(other, Food)", path + ["not " + t])
-            if isinstance(st, ast.Assign) and isinstance(st.targets[0], ast.Name) and st.targets[0].id in LABELS:
+                visit(st.orelse, other_is_food and t != f"isinstance({oth}, Food)", path + ["not " + t])
+            if isinstance(st, ast.Assign) and isinstance(st.targets[0], ast.Name) and is_label_src(st.value):
                 chosen.setdefault(st.targets[0].id, set()).add(("direct", norm_src(st.value)))
             if isinstance(st, ast.Return) and isinstance(st.value, ast.Call) and dotted(st.value.func) == "Food":
                 c = Construction("__mul__", fn, st.value)
@@ -353,19 +366,19 @@ def mul(food, rep):
                 where = " & ".join(path) or "top"
                 n_blocks += 1
                 if other_is_food:
-                    uses_locals = all(isinstance(e, ast.Name) and e.id == l for e, l in zip(labs, LABELS))
-                    ok = uses_locals and all(l in chosen for l in LABELS)
+                    uses_locals = all(isinstance(e, ast.Name) for e in labs) and len({e.id for e in labs if isinstance(e, ast.Name)}) == 3
+                    ok = uses_locals and all(e.id in chosen for e in labs)
                     if ok:
-                        # the selection must be: this_is_the_ratio -> other's labels; other_is_the_ratio -> self's
-                        for l in LABELS:
-                            for cond, src in chosen[l]:
-                                if cond == "this_is_the_ratio" and src != "other." + l:
+                        # the selection must be: this is the ratio -> other's labels; other is the ratio -> self's (same label lane)
+                        for e, l in zip(labs, LABELS):
+                            for cond, src in chosen[e.id]:
+                                if cond == THIS and src != f"{oth}." + l:
                                     ok = False
-                                if cond == "other_is_the_ratio" and src != "self." + l:
+                                if cond == OTHER and src != "self." + l:
                                     ok = False
                                 if cond == "direct":
                                     # a direct choice is only sound under the matching assertion
-                                    need = "this_is_the_ratio" if src == "other." + l else "other_is_the_ratio" if src == "self." + l else None
+                                    need = THIS if src == f"{oth}." + l else OTHER if src == "self." + l else None
                                     if need is None or need not in asserted:
                                         ok = False
                     rep.check(ok, rule, f"Food.__mul__[{where}]",
@@ -376,7 +389,7 @@ def mul(food, rep):
                     cl = classify_labels(c, {})
                     ok = set(cl) in ({"self"}, {"self+each month"})
                     if set(cl) == {"self+each month"}:
-                        ok = any("isinstance(other, np.ndarray)" in p for p in path)
+                        ok = any(f"isinstance({oth}, np.ndarray)" in p for p in path)
                     rep.check(ok, rule, f"Food.__mul__[{where}]",
                               "Food x number must keep the operand's labels (x ndarray: + ' each month')", loc=loc(FOOD, st),
                               detail=str(cl))
